@@ -316,7 +316,7 @@ pub fn run(ctx: &mut Ctx) {
     let mut batch: JsBatch<C17Item> = JsBatch::new(ctx, limit);
 
     // the repository's own assets (finite family, split over the shards)
-    let assets: Vec<ProgramCase> = asset_cases().into_iter().filter(|c| c.service.is_some()).collect();
+    let assets: Vec<ProgramCase> = asset_cases().into_iter().chain(catalogue_cases()).filter(|c| c.service.is_some()).collect();
     if !assets.is_empty() {
         let saved = ctx.max_cases;
         let n = assets.len() as u64;
